@@ -404,7 +404,7 @@ func (l c14) Exec(env *core.Env) *core.Result {
 	core.FinishSim(res, sim)
 	for _, t := range sim.Tasks() {
 		if t.PanicVal != nil {
-			res.Violate("C14/panic", fmt.Sprint(t.PanicVal), "panic in task %d (%s): %v\n%s", t.ID, t.Role, t.PanicVal, t.PanicStack)
+			res.Violate(core.PanicClass("C14", t.PanicStack), fmt.Sprint(t.PanicVal), "panic in task %d (%s): %v\n%s", t.ID, t.Role, t.PanicVal, t.PanicStack)
 		}
 	}
 	if ents, err := readDirNames(root); err == nil {
